@@ -38,6 +38,9 @@ CHECKS = {
     "C12": ("must-pass-through ordering in Client::handle + direct-flow taint into the quoted SQL literal (format_args template decoded from the compiled constant) + presence/provenance rules on ParameterStatus handling and startup merge + constant-table agreement",
             "All-paths/all-sites structural decision over the type-checked MIR: every path from the checkout to a server send/receive passes a successful Server::sync_parameters(client's map) on the server just checked out; in sync_parameters the value placed inside '...' does not flow straight from the parameter map (an intervening escaper call is required) and keys come from TRACKED_PARAMETERS; Server::recv applies a ParameterStatus to the server's map and to the caller's map (startup=false, values read from the message) in the 'S' arm, client traffic passes Some(&mut client map), pooler-internal queries pass None; at login the pool's parameters are merged with the startup packet before being written and kept; tracked set = defaults = the five parameters of the property.",
             "What PostgreSQL reports back, and the correctness of the escaper beyond its presence, are not decided (the demo demos/d4_c12_quoted_parameter.rs exercises it). " + TRUST, "DESIGN.md §4 C12"),
+    "C01": ("value-edge must-cross path rules over the transaction loop (loop/exit-edge analysis on MIR CFG) + receiver provenance + type/ownership facts from the type checker",
+            "All-paths structural decision over the type-checked MIR of Client::handle: from every server round trip inside the transaction loop, every exit edge of the loop that leads to the release path is reached only across in_transaction()==false, across in_copy_mode()==false where the reply may open a COPY, and across transaction_mode==true (session mode keeps the server); every Server method / helper in handle operates on the connection of this iteration's single checkout; Server is not Clone, no field/static stores a PooledConnection or shared Server, bb8 checkouts occur only at the three known sites, no owned checkouts or forgets, Server values are built only by Server::startup.",
+            "That bb8 hands a connection to one borrower at a time is trusted; interleavings are not decided; the clause 'every result was produced for its own statement' additionally rests on C02 (nothing unread on a connection that changes hands) and C03. " + TRUST, "DESIGN.md §4 C01"),
 }
 
 NOT_APPLICABLE = {}
